@@ -504,6 +504,51 @@ def C06.bad (c : Ctx) (j : Journal) : List String :=
         (if adds != 0 then ["taint-above-scale-up-threshold"] else [])
       else []
 
+/-- The max_node_age exception as documented ("when at the minimum node group size, Escalator will
+    trigger a scale up by a minimum of 1 if there are any nodes exceeding this max node age"; the code adds:
+    and nothing is tainted yet): under that condition the scan must not taint and must decide ≥ 1.
+    A node counts as exceeding the age only when it does so by more than a second (the code reads the
+    real clock a little later than the harness). -/
+def C06.badMaxAge (c : Ctx) (obsDelta : Int) (j : Journal) : List String :=
+  let unt := nodesOf c.dry c.st .untainted c.view.nodes
+  let tainted := nodesOf c.dry c.st .tainted c.view.nodes
+  let n : Int := c.view.nodes.length
+  if c.dry || lockHeld c.st.lock c.cfg.coolNs c.nowReal || n < c.st.minEff || n > c.st.maxEff ||
+     c.cfg.maxAgeNs ≤ 0 || (unt.length : Int) != c.st.minEff || unt.length == 0 || tainted.length > 0 ||
+     (exactUtil c).isNone ||
+     !unt.any (fun nd => c.nowReal - nd.created * 1000000000 > c.cfg.maxAgeNs + 1000000000) then []
+  else
+    let adds := (j.filter (isTaintAdd c.view)).length
+    (if adds != 0 then ["taint-while-rotation-is-due"] else []) ++
+    (if obsDelta < 1 then ["old-node-at-minimum-but-decision-" ++ toString obsDelta] else [])
+
+/-- Scale-up size at scan level (equal-size untainted nodes, utilisation clearly above the threshold,
+    same judging conditions as the bands): the decision must lie in [need, need+1] with
+    `need = max_r ⌈n·(100·R_r/C_r − T)/T⌉` on exact rationals — whatever triggers fired (they only raise a
+    decision that is below 1, and `need ≥ 1` here). -/
+def C05.badScaleUp (c : Ctx) (obsDelta : Int) : List String :=
+  let unt := nodesOf c.dry c.st .untainted c.view.nodes
+  let n : Int := c.view.nodes.length
+  if c.dry || lockHeld c.st.lock c.cfg.coolNs c.nowReal || n < c.st.minEff || n > c.st.maxEff ||
+     (unt.length : Int) < c.st.minEff || unt.length == 0 || c.cfg.scaleUp ≤ 0 then []
+  else
+    match unt with
+    | [] => []
+    | u0 :: rest =>
+      if !rest.all (fun x => x.allocCPU == u0.allocCPU && x.allocMem == u0.allocMem) then [] else
+      match exactUtil c with
+      | none => []
+      | some u =>
+        if !clearlyAbove u c.cfg.scaleUp then [] else
+        let pu := podsUsage c.view.pods
+        let k : Int := unt.length
+        let T : Int := c.cfg.scaleUp
+        let needOf (r cap : Int) : Int := ((k : Rat) * ((((100 * r : Int) : Rat) / (cap : Rat) - (T : Rat)) / (T : Rat))).ceil
+        let need : Int := max (needOf pu.total.cpu (k * u0.allocCPU)) (needOf pu.total.mem (k * u0.allocMem))
+        if obsDelta < need then ["scale-up-short:need-" ++ toString need ++ "-decided-" ++ toString obsDelta]
+        else if obsDelta > need + 1 then ["scale-up-over:need-" ++ toString need ++ "-decided-" ++ toString obsDelta]
+        else []
+
 /-! ### C05 — scale-up from zero, against the node size last observed (tracked by the driver, not by the model state) -/
 
 /-- `seen`: the size (milli-CPU, bytes) of the group's nodes as last observed in this controller lifetime
